@@ -121,6 +121,16 @@ class FaultRun(object):
                 return f
         return None
 
+    def _stop_after(self, rec):
+        """Seconds a solve stopped by its time limit has run: the limit of the solver object
+        that was actually used for it (the repository may hand the back end another limit than
+        the one the user gave to solve()), else the user's."""
+        t = getattr(rec, 'solver_time_limit', None)
+        try:
+            return float(t) if t is not None else float(self.time_limit)
+        except (TypeError, ValueError):
+            return float(self.time_limit)
+
     def _hook(self, backend, lp, rec):
         k = rec.index
         f = self._active(k)
@@ -150,7 +160,7 @@ class FaultRun(object):
                 # NotSolvedEarly: CBC "Stopped" for another reason than the time limit
                 # (iteration / node limit, interrupt): same status, clock not advanced
                 if kind == 'NotSolved' and self.time_limit is not None:
-                    self.clock.advance(self.time_limit)
+                    self.clock.advance(self._stop_after(rec))
             elif kind == 'Incumbent':
                 # a feasible, possibly non-optimal point when the enumeration has one
                 last = getattr(backend, 'last', None)
@@ -159,7 +169,7 @@ class FaultRun(object):
                     pick = res[(f.get('pick', 0) + k) % len(res)]
                     for v, val in zip(lvs, pick[2]):
                         v.varValue = float(val)
-                self.clock.advance(self.time_limit)
+                self.clock.advance(self._stop_after(rec))
             else:
                 pol = f.get('policy', 'zero')
                 if pol == 'zero':
